@@ -314,19 +314,29 @@ func (c *ClientConn) Receive(reader io.Reader) error {
 // If an unprepared error is encountered it attempts to prepare the query on the connection and re-execute the original
 // request.
 func (c *ClientConn) maybePrepareAndExecute(request Request, raw *frame.RawFrame) bool {
-	code, err := readInt(raw.Body)
-	if err != nil {
-		c.logger.Error("failed to read `code` in error response", zap.Error(err))
-		return false
+	isUnprepared := true // A compressed body can't be inspected without decoding it
+	if !raw.Header.Flags.Contains(primitive.HeaderFlagCompressed) &&
+		!raw.Header.Flags.Contains(primitive.HeaderFlagTracing) &&
+		!raw.Header.Flags.Contains(primitive.HeaderFlagCustomPayload) &&
+		!raw.Header.Flags.Contains(primitive.HeaderFlagWarning) {
+		code, err := readInt(raw.Body)
+		if err != nil {
+			c.logger.Error("failed to read `code` in error response", zap.Error(err))
+			return false
+		}
+		isUnprepared = primitive.ErrorCode(code) == primitive.ErrorCodeUnprepared
 	}
 
-	if primitive.ErrorCode(code) == primitive.ErrorCodeUnprepared {
+	if isUnprepared {
 		frm, err := c.codec.ConvertFromRawFrame(raw)
 		if err != nil {
 			c.logger.Error("failed to decode unprepared error response", zap.Error(err))
 			return false
 		}
-		msg := frm.Body.Message.(*message.Unprepared)
+		msg, ok := frm.Body.Message.(*message.Unprepared)
+		if !ok {
+			return false
+		}
 		id := hex.EncodeToString(msg.Id)
 		if prepare, ok := c.preparedCache.Load(id); ok {
 			err = c.Send(&prepareRequest{
